@@ -152,8 +152,10 @@ class LockedMachine(Machine):
 
         for mod in models:
             mod = self if mod is self.self_literal else mod
-            self.model_context_map[id(mod)].extend(self.machine_context)
-            self.model_context_map[id(mod)].extend(model_context)
+            # a model that is already registered keeps its contexts: adding it again has no effect
+            if not self.model_context_map[id(mod)]:
+                self.model_context_map[id(mod)].extend(self.machine_context)
+                self.model_context_map[id(mod)].extend(model_context)
 
     def remove_model(self, model):
         """Extends `transitions.core.Machine.remove_model` by removing model specific context maps
